@@ -928,6 +928,7 @@ func (h *harness) compare(t *txn, what, table, note string, want []string, got s
 func Run(s *simrt.Sim, mode string, ri *hkit.RunInfo) {
 	h := &harness{s: s, ri: ri, prop: mode, g: s.Tape.Stream("gen"), verOf: map[*db19.DbState]int{}, sch: map[string]*schema.Schema{}}
 	g := h.g
+	s.Context = func() string { return h.history() }
 	// swarm knobs
 	db19.VerifReset()
 	db19.MaxAge = g.Range(3, 20)
